@@ -238,3 +238,19 @@ pub fn must_return<T>(
         }
     }
 }
+
+/// Run a library call on a fresh thread with the stack a spawned Rust thread gets by default (2 MiB) -- the
+/// situation of a caller that is not on the main thread. A panic is a recorded outcome as with `guard`; a
+/// stack overflow aborts the process (the driver confirms it on the single case and reports it).
+pub fn on_thread_stack<T: Send>(f: impl FnOnce() -> T + Send) -> Result<T, PanicInfo> {
+    if cfg!(miri) {
+        return guard(f);
+    }
+    std::thread::scope(|sc| {
+        let h = std::thread::Builder::new().stack_size(2 << 20).spawn_scoped(sc, move || guard(f));
+        match h {
+            Ok(h) => h.join().unwrap_or_else(|_| Err(PanicInfo { msg: "<panic escaped the worker thread>".into(), file: "<unknown>".into(), line: 0 })),
+            Err(e) => Err(PanicInfo { msg: format!("could not spawn worker thread: {}", e), file: "<harness>".into(), line: 0 }),
+        }
+    })
+}
